@@ -22,7 +22,7 @@ func init() {
 		Doc: "history is deleted from the handle that was just committed, after it became the live tree"})
 	register(&Rule{Name: "C09.gc-excludes-live", Min: 1, Run: c09ExcludesLive,
 		Doc: "objects still linked by the retained current tree are taken out of the deletion set"})
-	claim("C09", "C09 clauses decided (each a necessary condition of 'vacuum removes only storage no retained version needs'): gc-same-set, gc-diff-pairs, vacuum-handle, gc-excludes-live (violated: recorded known finding — content-addressed objects shared between a deleted and the current version are not protected), vacuum-order / vacuum-purge / who-deletes (shared with C04, C03). Not decided: whether a deleted object is in fact unreferenced for a given history (content-hash sharing between arbitrary versions is a runtime fact), dependency behaviour of mast's DiffLinks.",
+	claim("C09", "C09 clauses decided (each a necessary condition of 'vacuum removes only storage no retained version needs'): gc-same-set, gc-diff-pairs, vacuum-handle, gc-excludes-live (the links of the handle's own live tree are taken off the deletion list by a complete walk against the empty tree; repaired as 421ec03), vacuum-order / vacuum-purge / who-deletes (shared with C04, C03). Not decided: whether a deleted object is in fact unreferenced for a given history (content-hash sharing between arbitrary versions is a runtime fact), dependency behaviour of mast's DiffLinks.",
 		"C09.gc-same-set", "C09.gc-diff-pairs", "C09.vacuum-handle", "C09.gc-excludes-live", "C04.vacuum-order", "C04.vacuum-purge", "C03.who-deletes")
 	register(&Rule{Name: "C10.one-cutoff", Min: 4, Run: c10OneCutoff,
 		Doc: "one cutoff value decides the row side, the tombstone purge and the version side of a vacuum"})
